@@ -2,9 +2,10 @@
 import copy
 
 from harness import casgen, common, refio, sessions
+from harness.common import bud
 
 PROP = "C01"
-MODULES = ["CassisModel.Properties.C01"]
+MODULES = ["CassisModel.Properties.C01", "CassisModel.Properties.C01RoundTrip", "CassisModel.Properties.C03Doc"]
 THEOREMS = [
     "Cassis.Lex.parseInt_showInt",
     "Cassis.Lex.splitWs_joinSp",
@@ -24,6 +25,9 @@ THEOREMS = [
     "Cassis.Xmi.saveXmi_ids_nodup",
     "Cassis.Xmi.sofa_roundtrip",
     "Cassis.Xmi.view_roundtrip",
+    "Cassis.Xmi.xmi_roundtrip_flat",
+    "Cassis.Xmi.xmi_roundtrip_flat_fixpoint",
+    "Cassis.Xmi.xmi_offset_roundtrip",
 ]
 ASSUMPTIONS = [
     "the theorems cover the lexical layer (int/bool/hex/token lists), the per-kind encode/decode pairs of the model's writer and reader, id ordering/uniqueness of the written document and the sofa/view records; the end-to-end statement load(save c) ~ c over whole graphs is NOT proved: it is checked on the implementation (oracle) and between implementation and model (correspondence) on generated CASes (partial)",
@@ -141,7 +145,7 @@ def run(ctx, out, budget):
                 "canonical id-keyed dump, re-serialisation identical, pretty_print content-neutral; writer, reader and dump compared "
                 "with the Lean model op by op. Non-trivial = distinct CASes with >= 3 separately written structures and >= 2 feature kinds.")
     rng = ctx.rng(0)
-    n = 150 if budget == "quick" else 15000
+    n = bud(budget, 150, 15000)
     cases = [make_case(rng, rng.randint(1, 12)) for _ in range(n)]
     if budget != "quick":
         cases += [make_case(rng, rng.randint(50, 200)) for _ in range(30)]
